@@ -341,8 +341,26 @@ def run(rep_in=None, ctx_in=None, only_transform=False):
                 return None
             cd = called(p, r"cache_dir$")
             jn = called(p, r"::join$")
-            ok = len(cd) == 1 and len(jn) == 1 and "fclones" in repr(jn[0].args[1]).replace(" ", "") or (jn and bytes(b"fclones").hex() in "".join(
+            named = bool(jn) and ("fclones" in repr(jn[0].args[1]).replace(" ", "") or bytes(b"fclones").hex() in "".join(
                 "%02x" % (x.as_long() if hasattr(x, "as_long") else 0) for x in (getattr(summaries.deref_val(eng, _st(p), jn[0].args[1]), "items", ()))))
+            # the directory that is joined with "fclones" is the one dirs::cache_dir() returned (absolute by the XDG rules), nothing
+            # taken from the environment or the working directory
+            from_sys = False
+            if len(cd) == 1 and len(jn) == 1:
+                st = _st(p)
+                recv = summaries.canon(eng, st, jn[0].args[0]).lstrip("&").rstrip("*")
+                src = summaries.canon(eng, st, cd[0].ret)
+                for _ in range(4):
+                    if recv.startswith(src):
+                        break
+                    base_ = re.sub(r"@(Ok|Some)\.0$", "", recv)
+                    prod = [ev for ev in p.events if ev.kind == "call" and ev.ret is not None and ev.args and summaries.canon(eng, st, ev.ret) == base_
+                            and re.search(r"Option::(ok_or|ok_or_else|unwrap|expect)$|Result::(unwrap|expect)$|[Dd]eref|as_ref$|as_path$|clone$", ev.callee)]
+                    if not prod:
+                        break
+                    recv = summaries.canon(eng, st, prod[0].args[0]).lstrip("&").rstrip("*")
+                from_sys = recv.startswith(src)
+            ok = len(cd) == 1 and len(jn) == 1 and named and from_sys
             return z3.BoolVal(bool(ok))
         finish(oblig.check_paths(eng, ps, "the cache database is opened in dirs::cache_dir()/fclones", cprop, oblig.fnames(eng), key="cache:location"))
     except Inconclusive as ex:
